@@ -164,7 +164,7 @@ func runC11(r *Run) {
 			{Name: "detach-compact", Kind: "nested", T: 256, Keys: 1, Classes: []string{"Mc:t,t", "t"}, Oracles: or, Extra: ex(0, 3, 2, 4, 2)},
 			{Name: "detach-oldhandle-depth3", Kind: "nested", T: 256, Keys: 1, Classes: []string{"h", "A", "M"}, Oracles: or, Extra: exOld(0, 1, 2, 3, 3)},
 			{Name: "detach-oldhandle-map-depth3", Kind: "nested", T: 256, Keys: 1, Classes: []string{"h", "A", "M"}, Oracles: or, Extra: exOld(1, 1, 2, 3, 3)},
-			{Name: "detach-oldhandle-2kids", Kind: "nested", T: 256, Keys: 2, Classes: []string{"t", "h", "A", "M"}, Oracles: or, Extra: exOld(0, 2, 2, 3, 2)},
+			{Name: "detach-oldhandle-2kids", Kind: "nested", T: 256, Keys: 2, Classes: []string{"t", "A", "M"}, Oracles: or, Extra: exOld(0, 2, 1, 3, 2)},
 			{Name: "detach-nodedup-arr", Kind: "nested", T: 256, Keys: 2, Classes: []string{"t", "A"}, Oracles: []string{"sem", "struct", "inline", "reach", "reopen"}, Extra: exND(0), Depth: 6},
 			{Name: "detach-nodedup-map", Kind: "nested", T: 256, Keys: 2, Classes: []string{"t", "M"}, Oracles: []string{"sem", "struct", "inline", "reach", "reopen"}, Extra: exND(1), Depth: 6},
 		}
